@@ -190,7 +190,7 @@ func c04Exec(s *Sess, hist []c04Op, yields bool) (string, int) {
 
 var c04Letters = func() []c04Op {
 	var ls []c04Op
-	for _, n := range []string{"foo", "FOO", "bar"} {
+	for _, n := range []string{"foo", "FOO", "baz"} {
 		ls = append(ls, c04Op{Kind: "reg", Set: "fg", Via: "Handle", Name: n})
 		ls = append(ls, c04Op{Kind: "reg", Set: "bg", Via: "HandleBG", Name: n})
 	}
@@ -202,7 +202,7 @@ var c04Letters = func() []c04Op {
 	for _, i := range []int{0, 1, -1} {
 		ls = append(ls, c04Op{Kind: "rm", Idx: i})
 	}
-	ls = append(ls, c04Op{Kind: "ev", Name: "FOO"}, c04Op{Kind: "ev", Name: "bar"})
+	ls = append(ls, c04Op{Kind: "ev", Name: "FOO"}, c04Op{Kind: "ev", Name: "BAZ"})
 	return ls
 }()
 
@@ -418,7 +418,7 @@ func c04OverlapScenario(nbg, nev int) *explore.Scenario {
 		Params: map[string]interface{}{"bg": nbg, "events": nev},
 		Opt:    vx.Options{MaxSteps: 40000},
 	}
-	names := []string{"foo", "bar"}
+	names := []string{"foo", "Quiz"}
 	sc.Main = func(env *vx.Env) {
 		s, err := StartSession(env, "me", nil, nil)
 		if err != nil {
@@ -456,7 +456,7 @@ func c04OverlapScenario(nbg, nev int) *explore.Scenario {
 		for _, r := range ev {
 			f := strings.Fields(r)
 			// run <id> <event-name> <event-no>
-			if !strings.Contains(f[1], "-"+f[2]) {
+			if !strings.Contains(strings.ToLower(f[1]), "-"+f[2]) {
 				fs = append(fs, explore.Finding{Oracle: "wrong-name", Msg: fmt.Sprintf("handler %s, registered under another name, ran for event %s %s :: %s", f[1], f[2], f[3], strings.Join(ev, "; "))})
 			}
 			runs[f[1]+" "+f[3]]++
@@ -481,7 +481,7 @@ func c04OverlapScenario(nbg, nev int) *explore.Scenario {
 func init() {
 	Register(&Prop{
 		ID:   "C04",
-		Rule: "all histories up to depth 5 (quick) / 6 (thorough) that end in an event, over 20 letters = register fg/bg (Handle, HandleFunc, HandleBG) under foo/FOO/Foo/bar, 8 scripted handlers (remove self, remove previous sibling, add to own set, add to other set), Remove of the first/second/last registered handler, events FOO and bar; each history runs on a fresh real session and per-handler invocation counts are compared with the multiset model after every event; plus scripted histories, racing Handle/HandleBG/Remove calls from another goroutine, and back-to-back events whose background dispatches overlap, under K<=2 schedule deviations; distinct = distinct histories",
+		Rule: "all histories up to depth 5 (quick) / 6 (thorough) that end in an event, over 20 letters = register fg/bg (Handle, HandleFunc, HandleBG) under foo/FOO/Foo/baz, 8 scripted handlers (remove self, remove previous sibling, add to own set, add to other set), Remove of the first/second/last registered handler, events FOO and BAZ; each history runs on a fresh real session and per-handler invocation counts are compared with the multiset model after every event; plus scripted histories, racing Handle/HandleBG/Remove calls from another goroutine, and back-to-back events whose background dispatches overlap, under K<=2 schedule deviations; distinct = distinct histories",
 		Assumptions: []string{
 			"sequential histories run under the default scheduler with quiescence between top-level operations; interleavings are the subject of the handlers-concurrent / handlers-race families",
 			"each Remover is used at most once (guarded by the harness); a handler added to the other set during an event may or may not see that event",
@@ -510,7 +510,7 @@ func init() {
 				"addsame+bg-rmself":     {R("fg", "Handle", "foo", "addsame"), R("bg", "HandleBG", "foo", "rmself"), E("FOO"), E("FOO"), E("FOO")},
 				"cross-adds":            {R("bg", "HandleBG", "foo", "addother"), R("fg", "Handle", "foo", "addother"), E("FOO"), E("FOO")},
 				"remove-only":           {R("fg", "Handle", "foo", "rmself"), E("FOO"), E("FOO"), R("fg", "HandleFunc", "foo", ""), E("FOO")},
-				"bg-rmprev+other-name":  {R("bg", "HandleBG", "foo", ""), R("bg", "HandleBG", "bar", ""), R("bg", "HandleBG", "Foo", "rmprev"), E("FOO"), E("bar"), E("FOO")},
+				"bg-rmprev+other-name":  {R("bg", "HandleBG", "foo", ""), R("bg", "HandleBG", "baz", ""), R("bg", "HandleBG", "Foo", "rmprev"), E("FOO"), E("BAZ"), E("FOO")},
 				"toplevel-remove-first": {R("fg", "Handle", "foo", ""), R("fg", "Handle", "foo", ""), R("fg", "Handle", "foo", ""), {Kind: "rm", Idx: 0}, E("FOO"), {Kind: "rm", Idx: -1}, E("FOO")},
 			}
 			for n, h := range sel {
